@@ -27,7 +27,7 @@ RULE = (
     "state = digest of the three cache directories (per patch: binning file bytes, per-tree (count, weight sum, "
     "sorted points) unpickled from trees.pkl, parsed meta.yml); transitions = {build_trees on the reference with "
     "binning in {B1 right, B1 left, B1 with an edge moved by 1 ulp, other edges same count, other count, unbinned} "
-    "(unforced, forced), the same on a single patch only (BinnedTrees.build), builds on the unknown and random "
+    "(plus a binning differing from B1 in the last edge only) (unforced, forced), the same on a single patch only (BinnedTrees.build), builds on the unknown and random "
     "catalogs, crosscorrelate / autocorrelate (also with count_rr=False) with configurations over these binnings and two scale sets, "
     "crosscorrelate with the roles of reference and unknown swapped}; BFS from the first operation given by the "
     "case to depth 3 (quick) / 4 (thorough) with digest deduplication; redshifts sit exactly on bin edges and one "
@@ -51,6 +51,7 @@ BINNINGS = {
     "B1r": ([0.1, E, 0.4], "right"), "B1l": ([0.1, E, 0.4], "left"),
     "B1e": ([0.1, float(np.nextafter(E, 1.0)), 0.4], "right"),
     "B2": ([0.1, 0.3, 0.4], "right"), "B3": ([0.1, E, 0.3, 0.4], "right"), "U": (None, "right"),
+    "B1z": ([0.1, E, 0.32], "right"),  # differs from B1r in the last edge only (objects at 0.35 and 0.4 fall out)
 }
 SCALES = {"s1": ([0.3], [1.1]), "s2": ([0.2, 0.9], [0.8, 2.6]),
           # s3 reaches across the two patches (cross-patch pairs exist only here), sk is a physical scale (the angle
@@ -69,7 +70,7 @@ def all_ops(tier):
         ops.append(("build", "U", b, False))
     ops.append(("build", "RR", "B1l", False))
     ops.append(("build1", "RR", "B2", False))
-    for b in ("B1r", "B1l", "B1e", "B2"):
+    for b in ("B1r", "B1l", "B1e", "B2", "B1z"):
         ops.append(("cross", b, "s1"))
     ops.append(("cross", "B1r", "s2"))
     ops.append(("auto", "B1r", "s1"))
